@@ -158,22 +158,29 @@ structure Row where
 
 def optArg (s : String) : Option String := if s = "-" then Option.none else some s
 
-/-- the model property for a table row; the hand-written handlers are supplied by `impl` -/
-def ofRow (impl : Row → CustomImpl Leaf) (r : Row) : Property Leaf :=
-  if r.kind = "Attribute" then .attr r.admName r.argName (codecOf r.ty) r.required (leafOfRepr r.handlerDefault)
+/-- the model property for a table row over a value type `V` that embeds the leaves (`lift`, `inj`); the
+hand-written handlers are supplied by `impl` -/
+def ofRowG {V : Type} (lift : Codec Leaf → Codec V) (inj : Leaf → V) (impl : Row → CustomImpl V) (r : Row) :
+    Property V :=
+  if r.kind = "Attribute" then
+    .attr r.admName r.argName (lift (codecOf r.ty)) r.required (inj (leafOfRepr r.handlerDefault))
   else if r.kind = "AttrElement" then
-    .attrElement r.admName r.argName (codecOf r.ty) r.required (leafOfRepr r.handlerDefault) r.parseOnly
-  else if r.kind = "ListElement" then .listElement r.admName r.argName (codecOf r.ty) r.required r.parseOnly
-  else if r.kind = "HandleText" then .handleText r.argName (codecOf r.ty)
+    .attrElement r.admName r.argName (lift (codecOf r.ty)) r.required (inj (leafOfRepr r.handlerDefault)) r.parseOnly
+  else if r.kind = "ListElement" then .listElement r.admName r.argName (lift (codecOf r.ty)) r.required r.parseOnly
+  else if r.kind = "HandleText" then .handleText r.argName (lift (codecOf r.ty))
   else if r.kind = "TypeAttribute" then
-    .typeAttribute r.admName r.labelName r.argName (enumDefCodec r.enum) (enumLabelCodec r.enum) r.required
+    .typeAttribute r.admName r.labelName r.argName (lift (enumDefCodec r.enum)) (lift (enumLabelCodec r.enum)) r.required
   else if r.kind = "CustomElement" then .customElement r.admName (optArg r.argName) r.required (impl r)
   else .genericElement (optArg r.argName) r.required (impl r)
+
+/-- over the leaves themselves -/
+def ofRow (impl : Row → CustomImpl Leaf) (r : Row) : Property Leaf := ofRowG id id impl r
 
 def ofRows (impl : Row → CustomImpl Leaf) (rows : List Row) : List (Property Leaf) := rows.map (ofRow impl)
 
 /-- a hand-written handler that is not modelled: never matches anything the driver is asked about
 (its handler refuses, it writes nothing) -/
-def unmodelled : CustomImpl Leaf := ⟨fun _ _ => Option.none, fun _ => [], fun _ => []⟩
+def unmodelled : CustomImpl Leaf :=
+  { handle := fun _ _ => Option.none, attrsOut := fun _ => [], childrenOut := fun _ => [] }
 
 end Earverif.XmlCodec
